@@ -68,5 +68,15 @@ _cond("C11", [("MC_C11", "MC_C11s_quick.cfg"), ("MC_C11", "MC_C11k_quick.cfg")],
       "TLC explores every order of sequential updating as interleavings of the session machine, plus the joint route and the likelihood-factor route, and proves at completion that posterior and accumulated evidence equal the reference from the semantic layer (normalised prior x likelihoods; for Kalman filtering the dense joint over all states and observations assembled in the specification); every behaviour (every order) is replayed into the code step by step.",
       "static: Dw,Dy in {1,2}, N in {2,3} (all N! orders), classes Cond/CondDiag; Kalman: T=3, Dx,Dy in {1,2}, identity and general transitions")
 
+_cond("C02", [("MC_C02", "MC_C02_quick.cfg"), ("MC_SESSION", "MC_C04C_quick.cfg")],
+      "TLC checks in every reachable state of the scenario and session models that the reported log-mass (lnZ cache + ln_beta, light and full paths) equals the Gaussian integral of the function the object evaluates to, that every density-class object has mass one and equals the normal density of its own mean/covariance on the unisolvent lattice, and that normalize() divides by the mass; all constructor argument combinations and every density-returning API are enumerated; every behaviour is replayed into the code (all five mass queries in two orders).",
+      "8 constructor variants x 7 modifications x 2 query orders; session family C for densities returned by slicing, marginalising, conditioning and the affine transformations")
+_cond("C12", [("MC_SESSION", "MC_C12M_quick.cfg"), ("MC_SESSION", "MC_C12C_quick.cfg")],
+      "In the specification every operation is defined component-wise with the documented index maps (i*R2+j, r*N+n, batch index of the non-singleton operand) and TLC checks them (Inv_Slice, Inv_Pointwise, Inv_Transform, Inv_CondOnX, Inv_SetY, Inv_Update) in every state of session models with R=3 operands and index arrays with repetitions, permutations and negative entries; the explored histories contain both op;slice and slice;op and each is replayed into the code and compared with the exact component values, so cross-component leakage shows as a per-step mismatch.",
+      "R in {1,3}, slice patterns incl. negatives/repeats/permutations, session depth per cfg; every second family-M behaviour replayed (hash-sampled, all checked by TLC)")
+_cond("C15", [("MC_C01", "MC_C15a_quick.cfg"), ("MC_COND", "MC_C15b_quick.cfg"), ("MC_C03", "MC_C15c_quick.cfg")],
+      "For every specialised class (diagonal measures/densities/conditionals, identity-mean conditionals, rank-one/linear/constant factors) TLC proves that the class-specific code path modelled in the specification (diagonal inversion, Sherman-Morrison + determinant lemma, covariance reuse, M = I) yields the same function as the general object with the same parameters (Inv_Generalize, Inv_CacheCoherent, Inv_Transform...); the code is bound by replaying every behaviour and comparing with the general-semantics expected values.",
+      "all specialised classes x the operations they support (products, integrals, transformations, set_y, information quantities)")
+
 NOT_APPLICABLE = {}
 HOOK_COMMITS = []
